@@ -308,8 +308,13 @@ func VerifH_C17_options() {
 func VerifH_C17_membership() {
 	o := c17Dataset()
 	// a parent relation that has the route relation, a way and a node as members
-	o.Relations = append(o.Relations, &osm.Relation{ID: 30, Version: 1, Tags: osm.Tags{{Key: "type", Value: "route"}, {Key: "ref", Value: "M"}},
-		Members: osm.Members{{Type: osm.TypeRelation, Ref: 20, Role: "sub"}, {Type: osm.TypeWay, Ref: 10, Role: "area"}, {Type: osm.TypeNode, Ref: 5, Role: "end"}}})
+	parent := &osm.Relation{ID: 30, Version: 1, Tags: osm.Tags{{Key: "type", Value: "route"}, {Key: "ref", Value: "M"}},
+		Members: osm.Members{{Type: osm.TypeRelation, Ref: 20, Role: "sub"}, {Type: osm.TypeWay, Ref: 10, Role: "area"}, {Type: osm.TypeNode, Ref: 5, Role: "end"}}}
+	if vRange("parentBeforeChild", 0, 1) == 1 {
+		o.Relations = append(osm.Relations{parent}, o.Relations...)
+	} else {
+		o.Relations = append(o.Relations, parent)
+	}
 	fc, err := Convert(o)
 	vReach("converted")
 	vAssert(err == nil, "no-error")
@@ -334,4 +339,43 @@ func VerifH_C17_membership() {
 	vAssert(has("node", 5, 30, "end"), "node-member-lists-its-relation")
 	vAssert(has("node", 2, 20, "stop"), "node-member-lists-its-relation-2")
 	vAssert(!has("node", 1, 20, "stop") && !has("node", 1, 30, "end"), "non-member-lists-nothing")
+}
+
+// VerifH_C17_metaOwner: every feature carries the metadata of the element it is
+// identified as. Includes the old-style multipolygon (a relation without tags of its
+// own whose single outer way supplies identity and tags): the feature is way/<id>
+// and its meta is the way's, not the relation's.
+func VerifH_C17_metaOwner() {
+	o := c17Dataset()
+	wv, rv := vRange("wayVersion", 1, 3), vRange("relationVersion", 4, 6)
+	o.Ways[0].Version = wv
+	o.Ways[0].User, o.Ways[0].UserID, o.Ways[0].ChangesetID = "wayuser", 11, 111
+	rel := &osm.Relation{ID: 40, Version: rv, User: "reluser", UserID: 22, ChangesetID: 222,
+		Tags:    osm.Tags{{Key: "type", Value: "multipolygon"}},
+		Members: osm.Members{{Type: osm.TypeWay, Ref: 10, Role: "outer"}}}
+	if vRange("relationHasOwnTags", 0, 1) == 1 {
+		rel.Tags = append(rel.Tags, osm.Tag{Key: "landuse", Value: "forest"})
+	}
+	o.Relations = append(o.Relations, rel)
+	fc, err := Convert(o)
+	vReach("converted")
+	vAssert(err == nil, "no-error")
+	metaOf := func(typ string, id int) map[string]interface{} {
+		fs := featuresOf(fc, typ, id)
+		if len(fs) == 0 {
+			return nil
+		}
+		m, _ := fs[0].Properties["meta"].(map[string]interface{})
+		return m
+	}
+	if m := metaOf("way", 10); m != nil {
+		vAssert(m["version"] == wv && m["user"] == "wayuser" && m["uid"] == osm.UserID(11) && m["changeset"] == osm.ChangesetID(111), "way-feature-carries-way-meta")
+	}
+	if m := metaOf("relation", 40); m != nil {
+		vAssert(m["version"] == rv && m["user"] == "reluser" && m["uid"] == osm.UserID(22) && m["changeset"] == osm.ChangesetID(222), "relation-feature-carries-relation-meta")
+	}
+	vAssert(metaOf("way", 10) != nil || metaOf("relation", 40) != nil, "area-feature-present")
+	if m := metaOf("node", 1); m != nil {
+		vAssert(m["version"] == 2 && m["user"] == "u" && m["uid"] == osm.UserID(7) && m["changeset"] == osm.ChangesetID(9), "node-feature-carries-node-meta")
+	}
 }
